@@ -311,7 +311,7 @@ class ProgGen:
             # value to Vec.eq on both back ends
             self.features.add('vec-of-bool')
             a, b = self.gen_bool(ctx, depth - 1), self.gen_bool(ctx, depth - 1)
-            return 'Vec.of(%s).eq(Vec.of(%s))' % (r.pick(['!(%s)' % a, a, '!!(%s)' % a]), r.pick([b, '!(%s)' % b, 'true', 'false']))
+            return 'Vec.of(%s).eq(Vec.of(%s))' % (r.pick(['!(%s)' % a, a, '!(!(%s))' % a]), r.pick([b, '!(%s)' % b, 'true', 'false']))
         return r.pick(vs) if vs else r.pick(['true', 'false'])
 
     def gen_str(self, ctx, depth):
@@ -794,6 +794,12 @@ class Ed(val w: int) {}
 class MyNd(val e: Ed) : Nd<Ed> { method edge(): Ed = this.e }
 class Gr<N: Nd<E>, E>(val n: N, val e: E) { method first(): E = this.n.edge() }
 class Gr2<E, N: Nd<E>>(val n: N, val e: E) { method first(): E = this.n.edge() }
+class Me(val a: int) {
+  method me(): Me = this
+  method pick(b: bool): Me = if b { this } else { Me.init(1) }
+  method wrap(): Opt<Me> = Opt.Som(this)
+  method other(o: Me): Me = if o.a > this.a { o } else { this }
+}
 interface Sh0 { method sh(k: int): int }
 class Sa0(val a: int) : Sh0 { method sh(k: int): int = this.a + k }
 class Nb0(val a: int) {}
@@ -819,6 +825,11 @@ INFER_HELPERS = '''  function <T> pick(f: (int) -> Opt<T>, d: T): T = f(1).orEls
 # expected type (a generic constructor without type arguments, a nested un-annotated lambda), type arguments solved from a
 # lambda argument, from another argument, or from the return-type hint
 INFER_TEMPLATES = [
+    # methods that hand out `this`, taken as function values (the receiver is erased in the function's signature)
+    '{ let @x = Me.init(@k).me; @x().a }',
+    '{ let @x = Me.init(@k).pick; @x(true).a + @x(false).a }',
+    '{ let @x = Me.init(@k).wrap; match @x() { Som(@y) -> @y.a, Non -> 0 } }',
+    '{ let @x = Me.init(@k).other; @x(Me.init(@j)).a }',
     # callers whose type parameter is spelled like the called method's own (`<R>` calling Opt<R>.map<R>)
     'Main.mapSame(Opt.Som(@k), (@x) -> @x + @j).orElse(0) + Main.mapOne(Opt.Som("s")).orElse(@j)',
     'Main.mapBox(Opt.Som(@k)).orElse(Opt.Non()).orElse(@j)',
@@ -890,6 +901,8 @@ class Pr2(val a: int, val b: int) {}
 
 
 INFER_VIOLATIONS = [
+    ('field-access-on-class-name', 'Ed.w + @k'),
+    ('field-access-on-class-name', 'Pr.fst + @k'),
     ('bound-violation-solved-from-hint', '{ let @x: (Nb0) -> int = Main.useSh0; @x(Nb0.init(@k)) }'),
     ('bound-violation-solved-from-hint', 'Main.appNb(Main.useSh0) + @k'),
     ('lambda-result-vs-fixed-type-parameter', 'Main.twice((@x) -> "s", @k)'),
